@@ -287,6 +287,8 @@ class Check(PropertyCheck):
                 [("send", "broadcast", 0xFFFC, False, False), ("reply", 0)],
                 [("send", "broadcast", 0xFFFC, False, False), ("reply", 2, 0)],
                 [("send", "ieee", 0x1003, False, False), ("reply", 0), ("confirm", 0, 1, 0)],
+                # a confirmation carrying the (destination, tag) of a request that is still waiting for the lock
+                [("send", "ieee", 0x1002, True, False), ("send", "ieee", 0x1003, True, False), ("reply", 0, 1), ("confirm", 1, 1, 2)],
                 [("send", "unicast", 0x1000, False, False), ("cancel", 0)],
                 [("send", "unicast", 0x1000, False, False), ("reply", 0), ("cancel", 0), ("confirm", 0, 1, 0)],
                 [("send", "unicast", 0x1000, False, True), ("send", "unicast", 0x1000, False, False), ("cancel", 0), ("reply", 0)],
@@ -360,10 +362,13 @@ class Check(PropertyCheck):
             return f"raised {obs['crash']}"
         sendcmd = {}          # rid -> (kind, dst, tag) of its send command
         accepted = set()
-        confirmed_ok = set()
+        ok_confirms = []      # (event index, destination, tag) of successful confirmations
+        created = {}          # rid -> index of its send_packet call
         in_lock = None        # request currently between its first set-up/send command and the send reply
         last_cmd = {}         # rid -> 'setup' | 'send' : the command that request is waiting on
-        for ev, st in zip(case["_events"], obs["steps"]):
+        for idx, (ev, st) in enumerate(zip(case["_events"], obs["steps"])):
+            if ev[0] == "send":
+                created[ev[1]] = idx
             if ev[0] == "reply":
                 rid, enq = ev[1], ev[2]
                 if last_cmd.get(rid) == "send":
@@ -377,9 +382,11 @@ class Check(PropertyCheck):
                     in_lock = None
                 last_cmd.pop(ev[1], None)
             elif ev[0] == "confirm":
-                for rid, (k, dst, tag) in sendcmd.items():
-                    if k == 0 and dst == ev[1] and tag == ev[2] and ev[3] == 1:
-                        confirmed_ok.add(rid)
+                # the pending entry (destination, tag) exists from the moment send_packet was called, i.e. possibly
+                # before the send command is on the wire: a confirmation is matched against the request's own
+                # destination and tag whenever it arrives during the request's lifetime (the statement fixes no order)
+                if ev[3] == 1:
+                    ok_confirms.append((idx, ev[1], ev[2]))
             for e in st:
                 if e[0] in ("setup", "send"):
                     if in_lock is not None and in_lock != e[1]:
@@ -395,7 +402,8 @@ class Check(PropertyCheck):
                     if res == 0 and rid in sendcmd and sendcmd[rid][0] == 0:
                         if rid not in accepted:
                             return f"unicast {rid} returned normally although the NCP never accepted the message"
-                        if rid not in confirmed_ok:
+                        _, dst, tag = sendcmd[rid]
+                        if not any(i >= created.get(rid, 0) and d == dst and tg == tag for i, d, tg in ok_confirms):
                             return f"unicast {rid} returned normally without a successful confirmation for its own destination and tag"
         if obs["pending"] != 0 and obs["left"] == 0:
             return f"{obs['pending']} entries remain in the pending table after every request ended"
